@@ -29,9 +29,10 @@ static out_t call(int m, const char *s, size_t n, int tld) {
     out_t o = { r->rc, r->is_ipv4, r->is_ipv6, r->is_domain, (int)r->idn_rc };
     eav_result_free(r); MC_ADD(C_EVAL, 1); return o;
 }
+static const char *g_pred;     /* predecessor address validated right before (pair sweeps), recorded for replay */
 static void viol(const char *why, int m, int tld, const unsigned char *s, size_t n, const char *fmt, ...) {
-    char msg[200], cfg[64]; va_list ap; va_start(ap, fmt); vsnprintf(msg, sizeof msg, fmt, ap); va_end(ap);
-    snprintf(cfg, sizeof cfg, "mode=%s tld=%d", m >= 0 ? MN[m] : "all", tld);
+    char msg[200], cfg[96]; va_list ap; va_start(ap, fmt); vsnprintf(msg, sizeof msg, fmt, ap); va_end(ap);
+    snprintf(cfg, sizeof cfg, "mode=%s tld=%d%s%s", m >= 0 ? MN[m] : "all", tld, g_pred ? " pred=" : "", g_pred ? g_pred : "");
     mc_violation(n > MC_CASEMAX ? "noreplay-long-input" : corpus_name(CURPH), why, "", cfg, s, n, "%s", msg);
 }
 static long last_at(const unsigned char *s, size_t n) { for (long i = (long)n - 1; i >= 0; i--) if (s[i] == '@') return i; return -1; }
@@ -49,7 +50,10 @@ static void sink(const unsigned char *s, size_t n, void *arg) {
     for (size_t i = 0; i < n; i++) if (s[i] >= 0x80) ascii = 0;
     for (long i = 0; i < (at >= 0 ? at : (long)n); i++) if (s[i] == '"' || s[i] == '\\') plain_l = 0;
     out_t o[4][2];
-    for (int m = 0; m < 4; m++) for (int t = 0; t < 2; t++) o[m][t] = call(m, buf, n, t);
+    for (int m = 0; m < 4; m++) for (int t = 0; t < 2; t++) {
+        if (g_pred) (void)call(m, g_pred, strlen(g_pred), t);      /* hidden state: same mode, same tld_check, right before */
+        o[m][t] = call(m, buf, n, t);
+    }
     for (int t = 0; t < 2; t++) {
         if (ascii && plain_l) {
             MC_ADD(C_PUREASCII, 1);
@@ -76,6 +80,16 @@ static void sink(const unsigned char *s, size_t n, void *arg) {
     if (ascii && plain_l && at > 0) MC_ADD(C_NONTRIV, 1);
 }
 static void sink_counters(void) { C_PUREASCII = mc_counter("plain_ascii_addresses_x_tld"); C_INCL = mc_counter("inclusion_checks"); C_FIXD = mc_counter("fixed_domain_checks"); }
+/* hidden state: every ordered pair of the 1296 addresses x@b.XY - the relations must hold for the second one right after the first */
+static void pair_phase(long shard, void *arg) {
+    (void)arg; static const char AL[] = "abcdefghijklmnopqrstuvwxyz0123456789"; char p[16], d[16];
+    int pn = snprintf(p, sizeof p, "x@b.%c%c", AL[shard / 36], AL[shard % 36]);
+    for (int a = 0; a < 36; a++) for (int b = 0; b < 36; b++) {
+        int dn = snprintf(d, sizeof d, "x@b.%c%c", AL[a], AL[b]);
+        (void)pn; g_pred = p; sink((unsigned char *)d, (size_t)dn, NULL); g_pred = NULL;
+    }
+}
+#define HAVE_PAIRS 1
 #define PROPNAME "C12"
 #endif
 
@@ -95,7 +109,7 @@ static void sink(const unsigned char *s, size_t n, void *arg) {
         if (at >= 0 && ln >= 1 && ln <= 64) lv = ref_local(L, ln, m, REF_OPTS);
         if (at >= 0 && dn >= 1) {
             if (D[0] == '[' || m != 3) dv = ref_domainpart(D, dn, REF_OPTS, &fam);
-            else { dv = n > 2000 ? R_ANY : ref_expect_6531(D, dn, ref_domain(D, dn, REF_OPTS), REF_OPTS); if (dv == R_ACC) fam = RF_HOST; }
+            else { dv = n > 3900 ? R_ANY : ref_expect_6531(D, dn, ref_domain(D, dn, REF_OPTS), REF_OPTS); if (dv == R_ACC) fam = RF_HOST; }
         }
         for (int t = 0; t < 2; t++) {
             eav_result_t *r = EMAIL[m](buf, n, t); MC_ADD(C_EVAL, 1);
@@ -181,10 +195,10 @@ static void sink(const unsigned char *s, size_t n, void *arg) {
         /* truth of the named condition */
         int lv = (at >= 0 && ln >= 1) ? ref_local(L, ln, m, REF_OPTS) : R_REJ;
         int whyset = 0, fam = RF_NONE, dv = R_REJ;
-        unsigned char conv[2048]; const unsigned char *DD = D; size_t ddn = dn; int conv_ok = 1;
+        unsigned char conv[4096]; const unsigned char *DD = D; size_t ddn = dn; int conv_ok = 1;
         if (dn && D[0] != '[') {
-            if (m == 3 && dn >= 1000) conv_ok = 0;      /* conversion not attempted by the harness: nothing is claimed about IDN errors */
-            if (m == 3 && dn < 1000) { char *a = NULL; char tmp[1024]; memcpy(tmp, D, dn); tmp[dn] = 0; int r = idn2_to_ascii_8z(tmp, &a, IDN2_NONTRANSITIONAL);
+            if (m == 3 && dn >= 4000) conv_ok = 0;      /* conversion not attempted by the harness: nothing is claimed about IDN errors */
+            if (m == 3 && dn < 4000) { char *a = NULL; char tmp[4096]; memcpy(tmp, D, dn); tmp[dn] = 0; int r = idn2_to_ascii_8z(tmp, &a, IDN2_NONTRANSITIONAL);
                 if (r == IDN2_OK && strlen(a) < sizeof conv) { ddn = strlen(a); memcpy(conv, a, ddn); DD = conv; } else conv_ok = 0; if (a) free(a); }
             dv = ref_domain_why(DD, ddn, REF_OPTS, &whyset);
         } else if (dn) dv = ref_domainpart(D, dn, REF_OPTS, &fam);
@@ -259,6 +273,7 @@ static int do_replay(void) {
     mc_replay_t r; if (mc_load_replay(mc_replay, &r)) return 2;
     mc_replay_hit = 0;
     for (int i = 0; i < CP_N; i++) if (!strcmp(r.sub, corpus_name(i))) CURPH = i;
+    static char predbuf[96]; const char *pp = strstr(r.cfg, "pred="); if (pp) { snprintf(predbuf, sizeof predbuf, "%s", pp + 5); g_pred = predbuf; }
     sink(r.in, (size_t)r.len, NULL);
     printf("replay %s: %s\n", mc_replay, mc_replay_hit ? "VIOLATION reproduced" : "no violation");
     return mc_replay_hit ? 1 : 0;
@@ -273,6 +288,9 @@ int main(int argc, char **argv) {
     if (mc_replay) return do_replay();
 #ifdef HAVE_INJECT
     mc_parallel("injected classes 1..9 through a caller-installed callback", 1, inject_phase, NULL);
+#endif
+#ifdef HAVE_PAIRS
+    CURPH = CP_TLD; mc_parallel("pairs: every ordered pair of the 1296 addresses x@b.XY, second right after the first", 1296, pair_phase, NULL);
 #endif
     for (int ph = 0; ph < CP_N; ph++) { CURPH = ph; char nm[64]; snprintf(nm, sizeof nm, "%.40s (N=%d)", corpus_name(ph), corpus_N(ph)); mc_parallel(nm, corpus_shards(ph), phase_shard, NULL); }
     return mc_finish();
